@@ -189,14 +189,14 @@ theorem c02_ban_absorbing (cap : Nat) (slot : Report) (rs : List Report) (h : sl
 /-- Reports for another device never touch this device: `integrate` only replaces
 the entry of `r.id`. -/
 theorem c02_frame_device (cfg : Cfg) (s s' : State) (r : Report) (id : Nat) (hne : id ≠ r.id)
-    (h : integrate cfg s r = some s') : s'.devices.get id = s.devices.get id := by
+    (b : Bool) (h : integrate cfg s r = some (s', b)) : s'.devices.get id = s.devices.get id := by
   unfold integrate at h
   split at h
   · simp at h
   · split at h
     · simp at h
-    · simp at h; subst h; rfl
-    · simp at h; subst h
+    · simp at h; obtain ⟨h, _⟩ := h; subst h; rfl
+    · simp at h; obtain ⟨h, _⟩ := h; subst h
       exact FMap.get_set_ne _ _ _ _ (Ne.symm hne)
 
 /-- Non-vacuity: replay keeps the value; a second distinct report bans; an
